@@ -7,15 +7,19 @@
 //!  * oracle: an independent reference screen (below) executes the implementation's commands and must
 //!    equal `display` of the drawn surface after every rendered frame; as a second opinion the Lean
 //!    `exec` + `display` judge the same commands (`c01 exec …`, oracle line) on well-placed histories.
-//! Failures on histories with an ill-placed frame (overlapping / overhanging images, wide character
-//! touching an image area) are the known finding C01-img and are reported under that name.
+//! Part of the histories is driven through the real `Terminal::run_render` (resize = re-creation path,
+//! `frames_pending() > TERMINAL_FRAMES_DROP` = frame-drop path: the frame is drawn BEFORE `clear()`).
+//! A failure is labelled with the known finding C01-img only when the failing frame (or an earlier frame
+//! since the last clear / re-creation) is ill placed in a decidable sub-class: `C01-img/overhang`,
+//! `C01-img/overlap`, `C01-img/cut` (a wide character with exactly one half inside an image area, which
+//! includes an image cell in the shadow of a wide character). Panics are never labelled that way.
 use serde_json::{Value, json};
 use std::collections::BTreeMap;
 use std::io::Write;
 use surf_n_term::render::{Cell, TerminalRenderer};
 use surf_n_term::view::ViewContext;
 use surf_n_term::{
-    Error, Face, Glyph, Image, Position, Size, Surface, SurfaceMut, SurfaceOwned, Terminal, TerminalCaps, TerminalCommand,
+    Error, Face, FaceAttrs, TerminalAction, DecMode, Glyph, Image, Position, Size, Surface, SurfaceMut, SurfaceOwned, Terminal, TerminalCaps, TerminalCommand,
     TerminalEvent, TerminalSize, TerminalWaker, RGBA,
 };
 use verif_harness::{Cfg, r#gen::Rng, guarded, out::Out};
@@ -101,6 +105,7 @@ struct World {
     cells: Vec<Cell>,
     tables: String, // "<widths> <sizes> <rasters> <alphabet>"
     n_chars: usize, // alphabet[0..n_chars] are character cells
+    plain: Vec<bool>,
 }
 
 const CHARS: &[char] = &[' ', 'a', 'b', 'x', '世', '🤩'];
@@ -123,7 +128,15 @@ impl World {
             "fg=#fb4934,bg=#3c3836".parse().unwrap(),
             // the value the pinned code used as "impossible" initial face
             Face::default().with_bg(Some(RGBA::new(1, 2, 3, 255))),
+            // attributes that are visible on a blank cell: erasing is not the same as printing spaces
+            Face::new(None, Some(RGBA::new(60, 56, 54, 255)), FaceAttrs::UNDERLINE),
+            Face::new(Some(RGBA::new(250, 189, 47, 255)), None, FaceAttrs::REVERSE.insert(FaceAttrs::BOLD)),
         ];
+        // as the terminal sees it: does a printed space in this face look like an erased cell
+        let plain: Vec<bool> = faces
+            .iter()
+            .map(|f| !(f.attrs.contains(FaceAttrs::REVERSE) || f.attrs.contains(FaceAttrs::STRIKE) || f.attrs.names().any(|n| n.starts_with("underline"))))
+            .collect();
         let tsize = TerminalSize { cells: Size::new(4, 4), pixels: Size::new(4 * PPC_H, 4 * PPC_W) };
         let ppc = tsize.pixels_per_cell();
         // two images of different cell sizes: 1x2 and 2x3 cells
@@ -188,8 +201,10 @@ impl World {
                 SymKind::Gly(g) => format!("{}:g:{}", s.face, g),
             })
             .collect();
-        let tables = format!("{} {} {} {}", ws.join(","), ss.join(","), rs.join(","), al.join(","));
-        World { faces, images, sizes, raster, widths, alpha, cells, tables, n_chars }
+        let np: Vec<String> = plain.iter().enumerate().filter(|(_, p)| !**p).map(|(i, _)| i.to_string()).collect();
+        let np = if np.is_empty() { "-".to_string() } else { np.join(",") };
+        let tables = format!("{} {} {} {} {}", ws.join(","), ss.join(","), rs.join(","), np, al.join(","));
+        World { faces, images, sizes, raster, widths, alpha, cells, tables, n_chars, plain }
     }
     fn width(&self, ch: u32) -> usize {
         *self.widths.get(&ch).unwrap_or(&1)
@@ -215,6 +230,10 @@ impl World {
             _ => false,
         }
     }
+    /// what an erased cell shows
+    fn blank_of(&self, face: usize) -> SC {
+        if *self.plain.get(face).unwrap_or(&true) { SC::G(32, face) } else { SC::Erased(face) }
+    }
     fn sym_str(&self, surf: &[u8]) -> String {
         surf.iter().map(|&s| SYMS[s as usize] as char).collect()
     }
@@ -227,6 +246,9 @@ enum Step {
     Frame(Vec<u8>),
     Skip,
     Clear,
+    /// `clear()` called AFTER the next frame's surface has been drawn (frame-drop path of `run_render`);
+    /// the model sees it as `clear`
+    ClearAfterDraw,
     Recreate,
 }
 #[derive(Clone, Debug)]
@@ -236,6 +258,8 @@ struct Hist {
     clear0: bool,
     init: Option<Vec<u8>>, // what the terminal shows at the start (character symbols), None = blank
     steps: Vec<Step>,
+    /// drive the real `Terminal::run_render` (clear0 = false, blank start)
+    session: bool,
 }
 
 /// canonical commands
@@ -256,6 +280,8 @@ enum OC {
     EraseScreen,
     Save,
     Restore,
+    /// cannot change what the terminal shows (mode switches, queries, title …)
+    Neutral(String),
     Other(String),
 }
 impl OC {
@@ -275,12 +301,15 @@ impl OC {
             OC::EraseScreen => "?ed".into(),
             OC::Save => "?save".into(),
             OC::Restore => "?restore".into(),
+            OC::Neutral(s) => format!("~{s}"),
             OC::Other(s) => format!("?{s}"),
         }
     }
 }
+/// screen-neutral commands are not part of the compared command list
 fn show_cmds(cs: &[OC]) -> String {
-    if cs.is_empty() { "-".to_string() } else { cs.iter().map(|c| c.show()).collect::<Vec<_>>().join(",") }
+    let v: Vec<String> = cs.iter().filter(|c| !matches!(c, OC::Neutral(_))).map(|c| c.show()).collect();
+    if v.is_empty() { "-".to_string() } else { v.join(",") }
 }
 
 fn canon(world: &World, cmd: &TerminalCommand) -> OC {
@@ -298,40 +327,74 @@ fn canon(world: &World, cmd: &TerminalCommand) -> OC {
         TerminalCommand::EraseScreen => OC::EraseScreen,
         TerminalCommand::CursorSave => OC::Save,
         TerminalCommand::CursorRestore => OC::Restore,
-        other => OC::Other(format!("{other:?}").chars().filter(|c| c.is_ascii_alphanumeric()).take(24).collect()),
+        other => {
+            let name: String = format!("{other:?}").chars().filter(|c| c.is_ascii_alphanumeric()).take(24).collect();
+            let neutral = match other {
+                TerminalCommand::DecModeSet { mode, .. } => !matches!(mode, DecMode::AltScreen | DecMode::AutoWrap),
+                TerminalCommand::DecModeGet(_)
+                | TerminalCommand::FaceGet
+                | TerminalCommand::CursorGet
+                | TerminalCommand::Termcap(_)
+                | TerminalCommand::Title(_)
+                | TerminalCommand::DeviceAttrs
+                | TerminalCommand::KeyboardLevel(_) => true,
+                TerminalCommand::Color { color, .. } => color.is_none(),
+                _ => false,
+            };
+            if neutral { OC::Neutral(name) } else { OC::Other(name) }
+        }
+    }
+}
+
+fn draw(world: &World, hist: &Hist, view: &mut surf_n_term::TerminalSurface<'_>, surf: &[u8]) {
+    for r in 0..hist.h {
+        for c in 0..hist.w {
+            let s = surf[r * hist.w + c] as usize;
+            if s != 0 {
+                view.set(Position::new(r, c), world.cells[s].clone());
+            }
+        }
+    }
+}
+fn draw_junk(world: &World, hist: &Hist, view: &mut surf_n_term::TerminalSurface<'_>) {
+    if hist.h > 0 && hist.w > 0 {
+        view.set(Position::new(hist.h - 1, 0), world.cells[4].clone());
+        view.set(Position::new(0, hist.w - 1), world.cells[world.n_chars].clone());
     }
 }
 
 /// run the real renderer over the history; one command list per step
 fn run_impl(world: &World, hist: &Hist) -> Result<Vec<Vec<OC>>, ()> {
+    if hist.session {
+        return run_session(world, hist);
+    }
     guarded(|| {
         let mut term = Rec::new(hist.h, hist.w);
         let mut renderer = TerminalRenderer::new(&mut term, hist.clear0).unwrap();
         let mut res = Vec::new();
-        for step in &hist.steps {
+        let mut drawn = false; // the surface of the coming frame is already in the front buffer
+        for (k, step) in hist.steps.iter().enumerate() {
             match step {
                 Step::Frame(surf) => {
-                    let mut view = renderer.surface();
-                    for r in 0..hist.h {
-                        for c in 0..hist.w {
-                            let s = surf[r * hist.w + c] as usize;
-                            if s != 0 {
-                                view.set(Position::new(r, c), world.cells[s].clone());
-                            }
-                        }
+                    if !drawn {
+                        draw(world, hist, &mut renderer.surface(), surf);
                     }
+                    drawn = false;
                     renderer.frame(&mut term).unwrap();
                 }
                 Step::Skip => {
                     // the application drew something, then asked for no frame
-                    let mut view = renderer.surface();
-                    if hist.h > 0 && hist.w > 0 {
-                        view.set(Position::new(hist.h - 1, 0), world.cells[4].clone());
-                        view.set(Position::new(0, hist.w - 1), world.cells[world.n_chars].clone());
-                    }
+                    draw_junk(world, hist, &mut renderer.surface());
                     renderer.surface().clear();
                 }
                 Step::Clear => renderer.clear(&mut term).unwrap(),
+                Step::ClearAfterDraw => {
+                    if let Some(Step::Frame(surf)) = hist.steps.get(k + 1) {
+                        draw(world, hist, &mut renderer.surface(), surf);
+                        drawn = true;
+                    }
+                    renderer.clear(&mut term).unwrap();
+                }
                 Step::Recreate => {
                     renderer.clear(&mut term).unwrap();
                     renderer = TerminalRenderer::new(&mut term, true).unwrap();
@@ -344,6 +407,192 @@ fn run_impl(world: &World, hist: &Hist) -> Result<Vec<Vec<OC>>, ()> {
     })
 }
 
+// ---------------------------------------------------------------- sessions through Terminal::run_render
+
+/// one turn of the `run_render` loop
+#[derive(Clone, Debug)]
+struct Turn {
+    resize: bool,
+    drop: bool,
+    /// None = the handler answers `WaitNoFrame`
+    surf: Option<Vec<u8>>,
+}
+
+/// steps of a session history: turns of `[R] (F | S | K F)`, the last one rendering a frame
+fn session_turns(steps: &[Step]) -> Option<Vec<Turn>> {
+    let mut turns = Vec::new();
+    let mut i = 0;
+    while i < steps.len() {
+        let mut t = Turn { resize: false, drop: false, surf: None };
+        if steps[i] == Step::Recreate {
+            t.resize = true;
+            i += 1;
+        }
+        match steps.get(i)? {
+            Step::Frame(f) => {
+                t.surf = Some(f.clone());
+                i += 1;
+            }
+            Step::Skip => i += 1,
+            Step::ClearAfterDraw => {
+                let Some(Step::Frame(f)) = steps.get(i + 1) else { return None };
+                t.drop = true;
+                t.surf = Some(f.clone());
+                i += 2;
+            }
+            Step::Clear | Step::Recreate => return None,
+        }
+        turns.push(t);
+    }
+    if turns.last()?.surf.is_none() {
+        return None;
+    }
+    Some(turns)
+}
+
+#[derive(Debug)]
+enum Ev {
+    Poll,
+    Handler,
+    Cmd(OC, bool, bool), // command, is "synchronized output on", is "synchronized output off"
+}
+
+struct SessionTerm<'a> {
+    world: &'a World,
+    size: TerminalSize,
+    caps: TerminalCaps,
+    turns: Vec<Turn>,
+    polls: usize,
+    log: Vec<Ev>,
+    dropped: usize,
+}
+impl Write for SessionTerm<'_> {
+    fn write(&mut self, buf: &[u8]) -> std::io::Result<usize> {
+        Ok(buf.len())
+    }
+    fn flush(&mut self) -> std::io::Result<()> {
+        Ok(())
+    }
+}
+impl Terminal for SessionTerm<'_> {
+    fn execute(&mut self, cmd: TerminalCommand) -> Result<(), Error> {
+        let (on, off) = match &cmd {
+            TerminalCommand::DecModeSet { enable, mode: DecMode::SynchronizedOutput } => (*enable, !*enable),
+            _ => (false, false),
+        };
+        self.log.push(Ev::Cmd(canon(self.world, &cmd), on, off));
+        Ok(())
+    }
+    fn poll(&mut self, _t: Option<std::time::Duration>) -> Result<Option<TerminalEvent>, Error> {
+        self.log.push(Ev::Poll);
+        let k = self.polls;
+        self.polls += 1;
+        if self.turns.get(k).map(|t| t.resize).unwrap_or(false) {
+            Ok(Some(TerminalEvent::Resize(self.size)))
+        } else {
+            Ok(None)
+        }
+    }
+    fn size(&self) -> Result<TerminalSize, Error> {
+        Ok(self.size)
+    }
+    fn position(&mut self) -> Result<Position, Error> {
+        Ok(Position::new(0, 0))
+    }
+    fn waker(&self) -> TerminalWaker {
+        TerminalWaker::new(|| Ok(()))
+    }
+    fn frames_pending(&self) -> usize {
+        // far above TERMINAL_FRAMES_DROP when this turn drops frames
+        if self.turns.get(self.polls.wrapping_sub(1)).map(|t| t.drop).unwrap_or(false) { 1000 } else { 0 }
+    }
+    fn frames_drop(&mut self) {
+        self.dropped += 1;
+    }
+    fn dyn_ref(&mut self) -> &mut dyn Terminal {
+        self
+    }
+    fn capabilities(&self) -> &TerminalCaps {
+        &self.caps
+    }
+}
+
+fn run_session(world: &World, hist: &Hist) -> Result<Vec<Vec<OC>>, ()> {
+    let turns = session_turns(&hist.steps).ok_or(())?;
+    guarded(|| {
+        let mut term = SessionTerm {
+            world,
+            size: TerminalSize { cells: Size::new(hist.h, hist.w), pixels: Size::new(hist.h * PPC_H, hist.w * PPC_W) },
+            caps: TerminalCaps::default(),
+            turns: turns.clone(),
+            polls: 0,
+            log: Vec::new(),
+            dropped: 0,
+        };
+        let n = turns.len();
+        let r: Result<(), Error> = term.run_render(|term, _event, mut view| {
+            let k = term.polls - 1;
+            term.log.push(Ev::Handler);
+            match &term.turns[k].surf {
+                Some(surf) => {
+                    let surf = surf.clone();
+                    draw(world, hist, &mut view, &surf);
+                    Ok(if k + 1 == n { TerminalAction::Quit(()) } else { TerminalAction::Wait })
+                }
+                None => {
+                    draw_junk(world, hist, &mut view);
+                    Ok(TerminalAction::WaitNoFrame)
+                }
+            }
+        });
+        r.unwrap();
+        // cut the log into the command lists of the steps
+        let mut res: Vec<Vec<OC>> = Vec::new();
+        let mut it = term.log.into_iter().peekable();
+        for t in &turns {
+            assert!(matches!(it.next(), Some(Ev::Poll)));
+            let mut resize_seg = Vec::new();
+            while let Some(Ev::Cmd(..)) = it.peek() {
+                if let Some(Ev::Cmd(c, _, _)) = it.next() {
+                    resize_seg.push(c);
+                }
+            }
+            assert!(matches!(it.next(), Some(Ev::Handler)));
+            let mut clear_seg = Vec::new();
+            let mut frame_seg = Vec::new();
+            let mut in_frame = false;
+            while let Some(Ev::Cmd(..)) = it.peek() {
+                if let Some(Ev::Cmd(c, on, _off)) = it.next() {
+                    if on {
+                        in_frame = true;
+                    }
+                    if in_frame { frame_seg.push(c) } else { clear_seg.push(c) }
+                }
+            }
+            if t.resize {
+                res.push(resize_seg);
+            } else {
+                clear_seg.splice(0..0, resize_seg);
+            }
+            match (&t.surf, t.drop) {
+                (Some(_), true) => {
+                    res.push(clear_seg);
+                    res.push(frame_seg);
+                }
+                (Some(_), false) => {
+                    clear_seg.extend(frame_seg);
+                    res.push(clear_seg);
+                }
+                (None, _) => {
+                    clear_seg.extend(frame_seg);
+                    res.push(clear_seg);
+                }
+            }
+        }
+        res
+    })
+}
+
 // ---------------------------------------------------------------- independent reference screen (oracle)
 
 #[derive(Clone, Copy, PartialEq, Debug)]
@@ -351,6 +600,8 @@ enum SC {
     G(u32, usize),
     Cont,
     Orphan,
+    /// erased while this face was current: background only
+    Erased(usize),
 }
 #[derive(Clone, PartialEq, Debug)]
 struct Scr {
@@ -408,10 +659,12 @@ impl Scr {
                 }
             }
             OC::Erase(n) => {
-                let (r, c) = self.cur;
-                let face = self.face;
-                let n = (*n).max(1);
-                self.overwrite(r, c, c + n, |_| SC::G(32, face));
+                // EraseChars(0) is not sent to the terminal at all
+                if *n > 0 {
+                    let (r, c) = self.cur;
+                    let blank = world.blank_of(self.face);
+                    self.overwrite(r, c, c + n, |_| blank);
+                }
             }
             OC::Image(i, r, c) => {
                 self.place.insert((*r, *c), *i);
@@ -429,7 +682,7 @@ impl Scr {
             }
             OC::EraseLineRight | OC::EraseLineLeft | OC::EraseLine | OC::EraseScreen => {
                 let (r, c) = self.cur;
-                let face = self.face;
+                let blank = world.blank_of(self.face);
                 let w = self.w;
                 let rows = if *cmd == OC::EraseScreen { 0..self.h } else { r..(r + 1).min(self.h) };
                 for row in rows {
@@ -439,12 +692,13 @@ impl Scr {
                         _ => (0, w),
                     };
                     if a < b {
-                        self.overwrite(row, a, b, |_| SC::G(32, face));
+                        self.overwrite(row, a, b, |_| blank);
                     }
                 }
             }
             OC::Save => self.saved = self.cur,
             OC::Restore => self.cur = self.saved,
+            OC::Neutral(_) => {}
             OC::Other(s) => return Err(format!("unexpected command {s}")),
         }
         Ok(())
@@ -458,6 +712,7 @@ impl Scr {
                     SC::G(ch, f) => s.push_str(&format!("[{}/{}]", char::from_u32(ch).unwrap_or('?').escape_default(), f)),
                     SC::Cont => s.push_str("[<]"),
                     SC::Orphan => s.push_str("[ORPHAN]"),
+                    SC::Erased(f) => s.push_str(&format!("[erased/{f}]")),
                 }
             }
             res.push(s);
@@ -476,14 +731,36 @@ fn area(world: &World, w: usize, surf: &[u8], q: usize) -> Option<(usize, usize,
     Some((r, r + sh, c, c + sw))
 }
 
-/// SPEC: what a terminal shows after `surf` was painted from scratch
+/// the image cell (last in painting order) whose area contains each cell
+fn cover_map(world: &World, h: usize, w: usize, surf: &[u8]) -> Vec<Option<usize>> {
+    let mut cover = vec![None; h * w];
+    for q in 0..h * w {
+        if let Some((r0, r1, c0, c1)) = area(world, w, surf, q) {
+            for r in r0..r1.min(h) {
+                for c in c0..c1.min(w) {
+                    cover[r * w + c] = Some(q);
+                }
+            }
+        }
+    }
+    cover
+}
+
+/// SPEC: what a terminal shows after `surf` was painted from scratch.  A cell in the area of an image
+/// shows what erasing in the image cell's face gives; otherwise the right half of the wide character
+/// DISPLAYED in the cell to the left (not itself a right half, not hidden under an image); otherwise
+/// its own character in its own face.  One placement per image / glyph cell.
 fn display(world: &World, h: usize, w: usize, surf: &[u8]) -> Scr {
     let mut scr = Scr::blank(h, w);
+    let cover = cover_map(world, h, w, surf);
     for r in 0..h {
-        let mut shadow = false; // is cell (r, c) the right half of the wide character at c-1
+        let mut shadow = false; // is cell (r, c) the right half of the wide character displayed at c-1
         for c in 0..w {
-            let sym = world.alpha[surf[r * w + c] as usize];
-            let v = if shadow {
+            let q = r * w + c;
+            let sym = world.alpha[surf[q] as usize];
+            scr.grid[q] = if let Some(owner) = cover[q] {
+                world.blank_of(world.alpha[surf[owner] as usize].face)
+            } else if shadow {
                 SC::Cont
             } else {
                 match sym.kind {
@@ -491,86 +768,115 @@ fn display(world: &World, h: usize, w: usize, surf: &[u8]) -> Scr {
                     _ => SC::Orphan,
                 }
             };
-            scr.grid[r * w + c] = v;
-            shadow = !shadow && world.is_wide(surf[r * w + c]);
+            shadow = !shadow && cover[q].is_none() && world.is_wide(surf[q]);
         }
     }
-    // image areas: blank in the face of the image cell (the last one in painting order wins)
     for q in 0..h * w {
-        if let Some((r0, r1, c0, c1)) = area(world, w, surf, q) {
-            let face = world.alpha[surf[q] as usize].face;
-            for r in r0..r1.min(h) {
-                for c in c0..c1.min(w) {
-                    scr.grid[r * w + c] = SC::G(32, face);
-                }
-            }
-            scr.place.insert((q / w, q % w), world.img_of(surf[q]).unwrap());
+        if let Some(i) = world.img_of(surf[q]) {
+            scr.place.insert((q / w, q % w), i);
         }
     }
     scr
 }
 
-/// domain of the proved theorem (Lean: `Screen.WellPlaced`)
-fn well_placed(world: &World, h: usize, w: usize, surf: &[u8]) -> bool {
+/// Sub-class of the known finding C01-img a frame falls into, if any:
+/// `overhang` (an image area is empty or not inside the terminal), `overlap` (two image areas
+/// intersect), `cut` (a wide character has exactly one half inside some image area; this includes an
+/// image cell in the shadow of a wide character).  A wide character WHOLLY inside an image area is fine.
+fn frame_class(world: &World, h: usize, w: usize, surf: &[u8]) -> Option<&'static str> {
     let n = h * w;
     let mut owner: Vec<Option<usize>> = vec![None; n];
+    let mut overlap = false;
     for q in 0..n {
-        match world.alpha[surf[q] as usize].kind {
-            SymKind::Chr(ch) => {
-                let wd = world.width(ch as u32);
-                if wd != 1 && wd != 2 {
-                    return false;
-                }
-                if wd == 2 && q % w + 1 >= w {
-                    return false;
-                }
-            }
-            _ => {}
-        }
         if let Some((r0, r1, c0, c1)) = area(world, w, surf, q) {
             if r1 <= r0 || c1 <= c0 || r1 > h || c1 > w {
-                return false;
+                return Some("overhang");
             }
             for r in r0..r1 {
                 for c in c0..c1 {
                     if owner[r * w + c].is_some() {
-                        return false;
+                        overlap = true;
                     }
                     owner[r * w + c] = Some(q);
                 }
             }
         }
     }
+    if overlap {
+        return Some("overlap");
+    }
     for q in 0..n {
-        if world.is_wide(surf[q]) && (owner[q].is_some() || (q % w + 1 < w && owner[q + 1].is_some())) {
-            return false;
+        if world.is_wide(surf[q]) && q % w + 1 < w && owner[q] != owner[q + 1] {
+            return Some("cut");
         }
     }
-    true
+    None
 }
+
+/// domain of the proved theorems (Lean: `Screen.WellPlaced`)
+fn well_placed(world: &World, h: usize, w: usize, surf: &[u8]) -> bool {
+    for q in 0..h * w {
+        if let SymKind::Chr(ch) = world.alpha[surf[q] as usize].kind {
+            let wd = world.width(ch as u32);
+            if (wd != 1 && wd != 2) || (wd == 2 && q % w + 1 >= w) {
+                return false;
+            }
+        }
+    }
+    if frame_class(world, h, w, surf).is_some() {
+        return false;
+    }
+    LEAN_ALLOWS_HIDDEN_WIDE || {
+        let cover = cover_map(world, h, w, surf);
+        (0..h * w).all(|q| !(world.is_wide(surf[q]) && cover[q].is_some()))
+    }
+}
+/// does the Lean `WellPlaced` admit wide characters wholly inside an image area
+const LEAN_ALLOWS_HIDDEN_WIDE: bool = false;
 
 struct Verdict {
     /// first frame after which the screen differs from `display`
     fail_step: Option<usize>,
     expected: Vec<String>,
     got: Vec<String>,
-    /// every frame up to (and including) the failing one, or all frames, is well placed
-    well_placed: bool,
+    /// sub-class of C01-img the failure (or, without failure, some frame) belongs to
+    class: Option<&'static str>,
+    /// every frame lies in the domain of the Lean theorems
+    all_in_domain: bool,
     panicked: bool,
     cmds: Vec<Vec<OC>>,
 }
 
+/// class of the frames whose leftovers can matter for frame `k`: frame `k` itself first, then the
+/// earlier frames back to the last clear / re-creation
+fn class_at(world: &World, hist: &Hist, k: usize) -> Option<&'static str> {
+    let mut i = k;
+    loop {
+        match &hist.steps[i] {
+            Step::Frame(f) => {
+                if let Some(c) = frame_class(world, hist.h, hist.w, f) {
+                    return Some(c);
+                }
+            }
+            Step::Clear | Step::ClearAfterDraw | Step::Recreate => return None,
+            Step::Skip => {}
+        }
+        if i == 0 {
+            return None;
+        }
+        i -= 1;
+    }
+}
+
 fn judge(world: &World, hist: &Hist) -> Verdict {
-    let mut wp = true;
+    let frames = || hist.steps.iter().filter_map(|s| if let Step::Frame(f) = s { Some(f) } else { None });
+    let all_in_domain = frames().all(|f| well_placed(world, hist.h, hist.w, f));
+    let any_class = frames().find_map(|f| frame_class(world, hist.h, hist.w, f));
     let cmds = match run_impl(world, hist) {
         Ok(c) => c,
         Err(()) => {
-            for s in &hist.steps {
-                if let Step::Frame(f) = s {
-                    wp &= well_placed(world, hist.h, hist.w, f);
-                }
-            }
-            return Verdict { fail_step: Some(0), expected: vec![], got: vec!["panic".into()], well_placed: wp, panicked: true, cmds: vec![] };
+            // a panic is never part of the known finding
+            return Verdict { fail_step: Some(0), expected: vec![], got: vec!["panic".into()], class: None, all_in_domain, panicked: true, cmds: vec![] };
         }
     };
     let mut scr = match &hist.init {
@@ -582,6 +888,9 @@ fn judge(world: &World, hist: &Hist) -> Verdict {
         }
         None => Scr::blank(hist.h, hist.w),
     };
+    if cmds.len() != hist.steps.len() {
+        return Verdict { fail_step: Some(0), expected: vec![], got: vec![format!("{} command lists for {} steps", cmds.len(), hist.steps.len())], class: None, all_in_domain, panicked: false, cmds };
+    }
     for (k, step) in hist.steps.iter().enumerate() {
         let mut err = None;
         for c in &cmds[k] {
@@ -590,34 +899,47 @@ fn judge(world: &World, hist: &Hist) -> Verdict {
             }
         }
         if let Step::Frame(f) = step {
-            wp &= well_placed(world, hist.h, hist.w, f);
             let want = display(world, hist.h, hist.w, f);
             if scr.grid != want.grid || scr.place != want.place || err.is_some() {
                 let mut got = scr.rows(world);
                 if let Some(e) = err {
                     got.push(e);
                 }
-                return Verdict { fail_step: Some(k), expected: want.rows(world), got, well_placed: wp, panicked: false, cmds };
+                return Verdict { fail_step: Some(k), expected: want.rows(world), got, class: class_at(world, hist, k), all_in_domain, panicked: false, cmds };
             }
         } else if let Some(e) = err {
-            return Verdict { fail_step: Some(k), expected: vec![], got: vec![e], well_placed: wp, panicked: false, cmds };
+            return Verdict { fail_step: Some(k), expected: vec![], got: vec![e], class: class_at(world, hist, k), all_in_domain, panicked: false, cmds };
         }
     }
-    Verdict { fail_step: None, expected: vec![], got: vec![], well_placed: wp, panicked: false, cmds }
+    Verdict { fail_step: None, expected: vec![], got: vec![], class: any_class, all_in_domain, panicked: false, cmds }
 }
 
-/// greedy shrinking that keeps "fails, with the same well-placedness"
-fn shrink(world: &World, hist: &Hist, wp: bool) -> Hist {
+/// greedy shrinking that keeps "fails, in the same class"
+fn shrink(world: &World, hist: &Hist, class: Option<&'static str>, panicked: bool) -> Hist {
     let same = |h: &Hist| {
+        if h.session && session_turns(&h.steps).is_none() {
+            return false;
+        }
         let v = judge(world, h);
-        v.fail_step.is_some() && v.well_placed == wp
+        v.fail_step.is_some() && v.class == class && v.panicked == panicked
     };
     let mut cur = hist.clone();
     if let Some(k) = judge(world, &cur).fail_step {
-        cur.steps.truncate(k + 1);
+        if !panicked {
+            cur.steps.truncate(k + 1);
+        }
     }
     loop {
         let mut progress = false;
+        // a session is first tried as a direct history (smaller to read)
+        if cur.session {
+            let mut t = cur.clone();
+            t.session = false;
+            if same(&t) {
+                cur = t;
+                progress = true;
+            }
+        }
         let mut i = 0;
         while i < cur.steps.len() {
             let mut t = cur.clone();
@@ -663,12 +985,20 @@ fn shrink(world: &World, hist: &Hist, wp: bool) -> Hist {
 
 // ---------------------------------------------------------------- wire format
 
+/// token of a step in the request to the model (`ClearAfterDraw` is `clear` for the model)
 fn step_token(world: &World, s: &Step) -> String {
     match s {
         Step::Frame(f) => format!("F{}", world.sym_str(f)),
         Step::Skip => "S".into(),
-        Step::Clear => "C".into(),
+        Step::Clear | Step::ClearAfterDraw => "C".into(),
         Step::Recreate => "R".into(),
+    }
+}
+/// token of a step in a replay file
+fn step_name(world: &World, s: &Step) -> String {
+    match s {
+        Step::ClearAfterDraw => "K".into(),
+        other => step_token(world, other),
     }
 }
 fn header(world: &World, hist: &Hist) -> String {
@@ -691,14 +1021,15 @@ fn exec_request(world: &World, hist: &Hist, cmds: &[Vec<OC>]) -> String {
     };
     format!("c01 exec {} {} {}", header(world, hist), init, steps.join(" "))
 }
-fn hist_json(world: &World, hist: &Hist, wp: bool) -> Value {
+fn hist_json(world: &World, hist: &Hist, class: Option<&'static str>) -> Value {
     json!({
-        "h": hist.h, "w": hist.w, "clear0": hist.clear0,
+        "h": hist.h, "w": hist.w, "clear0": hist.clear0, "session": hist.session,
         "init": hist.init.as_ref().map(|g| world.sym_str(g)),
-        "steps": hist.steps.iter().map(|s| step_token(world, s)).collect::<Vec<_>>(),
-        "well_placed": wp,
-        "legend": "step F<cells row-major>: symbol k-th of a-zA-Z0-9 = alphabet entry k of `alphabet` (face:kind:code; c=char i=image g=glyph); S skipped frame, C clear(), R clear()+new(clear=true)",
-        "alphabet": world.tables.split(' ').nth(3).unwrap_or(""),
+        "steps": hist.steps.iter().map(|s| step_name(world, s)).collect::<Vec<_>>(),
+        "well_placed": class.is_none(),
+        "class": class,
+        "legend": "step F<cells row-major>: symbol k-th of a-zA-Z0-9 = alphabet entry k of `alphabet` (face:kind:code; c=char i=image g=glyph); S skipped frame, C clear(), K clear() called after the next frame was drawn, R clear()+new(clear=true); session=true: the steps are turns [R] (F | S | K F) of Terminal::run_render (R = Resize event, K = frames_pending() above the drop limit)",
+        "alphabet": world.tables.split(' ').nth(4).unwrap_or(""),
         "request": hist_request(world, hist),
     })
 }
@@ -719,6 +1050,7 @@ fn parse_hist(world: &World, v: &Value) -> Option<Hist> {
             }
             b'S' => Step::Skip,
             b'C' => Step::Clear,
+            b'K' => Step::ClearAfterDraw,
             _ => Step::Recreate,
         });
     }
@@ -727,7 +1059,7 @@ fn parse_hist(world: &World, v: &Value) -> Option<Hist> {
         g.resize(h * w, 0);
         g
     });
-    Some(Hist { h, w, clear0: v["clear0"].as_bool().unwrap_or(true), init, steps })
+    Some(Hist { h, w, clear0: v["clear0"].as_bool().unwrap_or(true), init, steps, session: v["session"].as_bool().unwrap_or(false) })
 }
 
 // ---------------------------------------------------------------- generation
@@ -760,24 +1092,24 @@ fn random_cell(world: &World, rng: &mut Rng, class: Class) -> u8 {
     (ch * world.faces.len() + face) as u8
 }
 
-/// make a surface well placed by removing what offends
+/// make a surface well placed by removing what offends (wide characters wholly under an image stay)
 fn repair(world: &World, h: usize, w: usize, surf: &mut [u8]) {
     let n = h * w;
-    let mut owner = vec![false; n];
+    let mut owner: Vec<Option<usize>> = vec![None; n];
     for q in 0..n {
         if let Some((r0, r1, c0, c1)) = area(world, w, surf, q) {
             let mut ok = r1 <= h && c1 <= w;
             if ok {
                 for r in r0..r1 {
                     for c in c0..c1 {
-                        ok &= !owner[r * w + c];
+                        ok &= owner[r * w + c].is_none();
                     }
                 }
             }
             if ok {
                 for r in r0..r1 {
                     for c in c0..c1 {
-                        owner[r * w + c] = true;
+                        owner[r * w + c] = Some(q);
                     }
                 }
             } else {
@@ -786,7 +1118,7 @@ fn repair(world: &World, h: usize, w: usize, surf: &mut [u8]) {
         }
     }
     for q in 0..n {
-        if world.is_wide(surf[q]) && (q % w + 1 >= w || owner[q] || owner[q + 1]) {
+        if world.is_wide(surf[q]) && (q % w + 1 >= w || owner[q] != owner[q + 1]) {
             surf[q] = (1 * world.faces.len() + world.alpha[surf[q] as usize].face) as u8; // 'a'
         }
     }
@@ -808,7 +1140,8 @@ fn random_surface(world: &World, rng: &mut Rng, h: usize, w: usize, class: Class
         }
         _ => {
             let density = 1 + rng.below(4);
-            (0..n).map(|_| if rng.chance(density, 4) { random_cell(world, rng, class) } else if rng.chance(1, 4) { rng.below(3) as u8 } else { 0 }).collect()
+            let nf = world.faces.len() as u64;
+            (0..n).map(|_| if rng.chance(density, 4) { random_cell(world, rng, class) } else if rng.chance(1, 4) { rng.below(nf) as u8 } else { 0 }).collect()
         }
     };
     // wide characters never in the last column (outside the domain)
@@ -823,9 +1156,14 @@ fn random_surface(world: &World, rng: &mut Rng, h: usize, w: usize, class: Class
     surf
 }
 
-fn random_hist(world: &World, rng: &mut Rng) -> (Hist, Class) {
-    let h = 1 + rng.below(5) as usize;
-    let w = 1 + rng.below(8) as usize;
+fn random_hist(world: &World, rng: &mut Rng, big: bool) -> (Hist, Class) {
+    let (h, w) = if big && rng.chance(1, 100) {
+        // empty and large terminals (thorough tier)
+        (rng.below(13) as usize, rng.below(21) as usize)
+    } else {
+        (1 + rng.below(5) as usize, 1 + rng.below(8) as usize)
+    };
+    let nf = world.faces.len();
     let class = match rng.below(12) {
         0 => Class::Narrow,
         1 | 2 => Class::Wide,
@@ -839,12 +1177,13 @@ fn random_hist(world: &World, rng: &mut Rng) -> (Hist, Class) {
     if class == Class::Kept && h * w > 0 {
         for _ in 0..1 + rng.below(2) {
             let q = rng.below((h * w) as u64) as usize;
-            base[q] = (world.n_chars + (rng.below(3) as usize) * world.faces.len() + rng.below(3) as usize) as u8;
+            base[q] = (world.n_chars + (rng.below(3) as usize) * nf + rng.below(nf as u64) as usize) as u8;
         }
         repair(world, h, w, &mut base);
     }
+    let session = rng.chance(1, 4);
     let nsteps = 1 + rng.below(8) as usize;
-    let clear0 = rng.chance(1, 2);
+    let clear0 = !session && rng.chance(1, 2);
     let init = if clear0 && rng.chance(2, 3) {
         let mut g: Vec<u8> = (0..h * w).map(|_| random_cell(world, rng, Class::Wide)).collect();
         for q in 0..h * w {
@@ -858,34 +1197,56 @@ fn random_hist(world: &World, rng: &mut Rng) -> (Hist, Class) {
     };
     let mut steps = Vec::new();
     let mut prev: Option<Vec<u8>> = None;
-    for i in 0..nsteps {
-        let k = rng.below(12);
-        let step = if i + 1 == nsteps || k < 8 {
-            let mut s = random_surface(world, rng, h, w, if class == Class::Kept { Class::Wide } else { class }, prev.as_ref());
-            if class == Class::Kept {
-                // blanks in all faces are frequent, the images of `base` are always there
-                for q in 0..h * w {
-                    if rng.chance(1, 3) {
-                        s[q] = rng.below(3) as u8;
-                    }
-                    if base[q] != 0 && (rng.chance(9, 10) || world.img_of(base[q]).is_none()) {
-                        s[q] = base[q];
-                    }
+    let frame = |rng: &mut Rng, prev: &mut Option<Vec<u8>>| {
+        let mut s = random_surface(world, rng, h, w, if class == Class::Kept { Class::Wide } else { class }, prev.as_ref());
+        if class == Class::Kept {
+            // blanks in all faces are frequent, the images of `base` are always there
+            for q in 0..h * w {
+                if rng.chance(1, 3) {
+                    s[q] = rng.below(nf as u64) as u8;
                 }
-                repair(world, h, w, &mut s);
+                if base[q] != 0 && (rng.chance(9, 10) || world.img_of(base[q]).is_none()) {
+                    s[q] = base[q];
+                }
             }
-            prev = Some(s.clone());
-            Step::Frame(s)
+            repair(world, h, w, &mut s);
+        }
+        *prev = Some(s.clone());
+        Step::Frame(s)
+    };
+    while steps.len() < nsteps {
+        let last = steps.len() + 1 >= nsteps;
+        let k = rng.below(14);
+        if session {
+            // turns of run_render: [R] (F | S | K F), the last turn renders
+            if k == 13 {
+                steps.push(Step::Recreate);
+            }
+            if last || k < 8 {
+                steps.push(frame(rng, &mut prev));
+            } else if k < 10 {
+                steps.push(Step::Skip);
+            } else {
+                steps.push(Step::ClearAfterDraw);
+                steps.push(frame(rng, &mut prev));
+            }
+        } else if last || k < 8 {
+            steps.push(frame(rng, &mut prev));
         } else if k < 9 {
-            Step::Skip
+            steps.push(Step::Skip);
         } else if k < 11 {
-            Step::Clear
+            steps.push(Step::Clear);
+        } else if k < 13 {
+            steps.push(Step::ClearAfterDraw);
+            steps.push(frame(rng, &mut prev));
         } else {
-            Step::Recreate
-        };
-        steps.push(step);
+            steps.push(Step::Recreate);
+        }
     }
-    (Hist { h, w, clear0, init, steps }, class)
+    if session && !matches!(steps.last(), Some(Step::Frame(_))) {
+        steps.push(frame(rng, &mut prev));
+    }
+    (Hist { h, w, clear0, init, steps, session }, class)
 }
 
 /// white-box corner cases, exercised whatever the seed
@@ -905,11 +1266,11 @@ fn corner_cases(world: &World) -> Vec<Hist> {
     let blank = |h: usize, w: usize| Step::Frame(vec![0u8; h * w]);
     for clear0 in [false, true] {
         // first painted cell has the old sentinel face
-        res.push(Hist { h: 2, w: 4, clear0, init: None, steps: vec![frame(2, 4, &[(0, 0, sym(1, 2))]), frame(2, 4, &[(1, 2, sym(2, 2))])] });
+        res.push(Hist { h: 2, w: 4, clear0, init: None, session: false, steps: vec![frame(2, 4, &[(0, 0, sym(1, 2))]), frame(2, 4, &[(1, 2, sym(2, 2))])] });
         // clear / recreate must repaint cells equal to the default cell
-        res.push(Hist { h: 1, w: 3, clear0, init: None, steps: vec![frame(1, 3, &[(0, 0, sym(3, 0))]), Step::Clear, blank(1, 3)] });
-        res.push(Hist { h: 1, w: 3, clear0, init: None, steps: vec![frame(1, 3, &[(0, 0, sym(3, 0))]), Step::Recreate, blank(1, 3)] });
-        res.push(Hist { h: 2, w: 3, clear0, init: None, steps: vec![frame(2, 3, &[(1, 1, sym(3, 1))]), Step::Skip, Step::Clear, Step::Skip, frame(2, 3, &[(0, 0, sym(1, 0))])] });
+        res.push(Hist { h: 1, w: 3, clear0, init: None, session: false, steps: vec![frame(1, 3, &[(0, 0, sym(3, 0))]), Step::Clear, blank(1, 3)] });
+        res.push(Hist { h: 1, w: 3, clear0, init: None, session: false, steps: vec![frame(1, 3, &[(0, 0, sym(3, 0))]), Step::Recreate, blank(1, 3)] });
+        res.push(Hist { h: 2, w: 3, clear0, init: None, session: false, steps: vec![frame(2, 3, &[(1, 1, sym(3, 1))]), Step::Skip, Step::Clear, Step::Skip, frame(2, 3, &[(0, 0, sym(1, 0))])] });
         // blank runs of length 4 and 5, also next to an ignored cell and in a non-default face
         for run in [3usize, 4, 5, 6] {
             let w = 8;
@@ -920,22 +1281,22 @@ fn corner_cases(world: &World) -> Vec<Hist> {
                 b[c] = sym(0, 0);
                 b[w + c] = sym(0, 1);
             }
-            res.push(Hist { h: 2, w, clear0, init: None, steps: vec![Step::Frame(a.clone()), Step::Frame(b.clone()), Step::Frame(a.clone())] });
+            res.push(Hist { h: 2, w, clear0, init: None, session: false, steps: vec![Step::Frame(a.clone()), Step::Frame(b.clone()), Step::Frame(a.clone())] });
             let mut c = b.clone();
             c[1 + run] = img(0, 0);
             repair(world, 2, w, &mut c);
-            res.push(Hist { h: 2, w, clear0, init: None, steps: vec![Step::Frame(a), Step::Frame(c), Step::Frame(b)] });
+            res.push(Hist { h: 2, w, clear0, init: None, session: false, steps: vec![Step::Frame(a), Step::Frame(c), Step::Frame(b)] });
         }
         // wide characters: next-to-last column, replaced by narrow, shadow cell changes, neighbours
         let w = 5;
-        res.push(Hist { h: 1, w, clear0, init: None, steps: vec![frame(1, w, &[(0, 3, sym(4, 0))]), frame(1, w, &[(0, 3, sym(1, 0))]), frame(1, w, &[(0, 3, sym(4, 0)), (0, 4, sym(2, 0))]), frame(1, w, &[(0, 3, sym(4, 0)), (0, 4, sym(3, 1))]), frame(1, w, &[(0, 2, sym(5, 0)), (0, 3, sym(4, 0))]), frame(1, w, &[(0, 1, sym(5, 1)), (0, 3, sym(4, 0))])] });
-        res.push(Hist { h: 1, w, clear0, init: None, steps: vec![frame(1, w, &[(0, 0, sym(4, 0)), (0, 2, sym(5, 0))]), frame(1, w, &[(0, 1, sym(4, 0)), (0, 3, sym(5, 0))]), Step::Clear, frame(1, w, &[(0, 0, sym(4, 2)), (0, 2, sym(1, 2))])] });
+        res.push(Hist { h: 1, w, clear0, init: None, session: false, steps: vec![frame(1, w, &[(0, 3, sym(4, 0))]), frame(1, w, &[(0, 3, sym(1, 0))]), frame(1, w, &[(0, 3, sym(4, 0)), (0, 4, sym(2, 0))]), frame(1, w, &[(0, 3, sym(4, 0)), (0, 4, sym(3, 1))]), frame(1, w, &[(0, 2, sym(5, 0)), (0, 3, sym(4, 0))]), frame(1, w, &[(0, 1, sym(5, 1)), (0, 3, sym(4, 0))])] });
+        res.push(Hist { h: 1, w, clear0, init: None, session: false, steps: vec![frame(1, w, &[(0, 0, sym(4, 0)), (0, 2, sym(5, 0))]), frame(1, w, &[(0, 1, sym(4, 0)), (0, 3, sym(5, 0))]), Step::Clear, frame(1, w, &[(0, 0, sym(4, 2)), (0, 2, sym(1, 2))])] });
         // images: at the origin, moved, replaced, glyph, erased by clear
-        res.push(Hist { h: 3, w: 6, clear0, init: None, steps: vec![frame(3, 6, &[(0, 0, img(1, 1))]), frame(3, 6, &[(1, 2, img(1, 1))]), frame(3, 6, &[(1, 2, img(0, 2)), (0, 0, gly(1))]), Step::Clear, frame(3, 6, &[(0, 0, gly(1)), (2, 1, sym(4, 0))]), Step::Recreate, frame(3, 6, &[(2, 4, gly(0))])] });
+        res.push(Hist { h: 3, w: 6, clear0, init: None, session: false, steps: vec![frame(3, 6, &[(0, 0, img(1, 1))]), frame(3, 6, &[(1, 2, img(1, 1))]), frame(3, 6, &[(1, 2, img(0, 2)), (0, 0, gly(1))]), Step::Clear, frame(3, 6, &[(0, 0, gly(1)), (2, 1, sym(4, 0))]), Step::Recreate, frame(3, 6, &[(2, 4, gly(0))])] });
         // an unchanged two-row image in a non-default face; blanks in other faces are painted left of it
         for f in 0..3 {
             for g in 0..3 {
-                res.push(Hist { h: 3, w: 6, clear0, init: None, steps: vec![
+                res.push(Hist { h: 3, w: 6, clear0, init: None, session: false, steps: vec![
                     frame(3, 6, &[(1, 0, sym(1, 0)), (0, 1, img(1, f))]),
                     frame(3, 6, &[(1, 0, sym(0, g)), (0, 1, img(1, f))]),
                     frame(3, 6, &[(0, 0, sym(0, g)), (1, 0, sym(0, f)), (0, 1, img(1, f)), (0, 4, sym(0, g)), (1, 4, sym(0, g)), (1, 5, sym(0, g))]),
@@ -943,14 +1304,45 @@ fn corner_cases(world: &World) -> Vec<Hist> {
             }
         }
         // ill-placed: image overhanging the bottom edge, overlapping images, wide character cut by an image
-        res.push(Hist { h: 2, w: 4, clear0, init: None, steps: vec![frame(2, 4, &[(1, 2, img(1, 0))]), blank(2, 4)] });
-        res.push(Hist { h: 3, w: 6, clear0, init: None, steps: vec![frame(3, 6, &[(0, 0, img(1, 0)), (1, 1, img(1, 1))]), frame(3, 6, &[(1, 1, img(1, 1))]), blank(3, 6)] });
-        res.push(Hist { h: 2, w: 6, clear0, init: None, steps: vec![frame(2, 6, &[(0, 1, sym(4, 0))]), frame(2, 6, &[(0, 1, sym(4, 0)), (0, 2, img(0, 0))]), frame(2, 6, &[(0, 1, sym(4, 0))])] });
+        res.push(Hist { h: 2, w: 4, clear0, init: None, session: false, steps: vec![frame(2, 4, &[(1, 2, img(1, 0))]), blank(2, 4)] });
+        res.push(Hist { h: 3, w: 6, clear0, init: None, session: false, steps: vec![frame(3, 6, &[(0, 0, img(1, 0)), (1, 1, img(1, 1))]), frame(3, 6, &[(1, 1, img(1, 1))]), blank(3, 6)] });
+        res.push(Hist { h: 2, w: 6, clear0, init: None, session: false, steps: vec![frame(2, 6, &[(0, 1, sym(4, 0))]), frame(2, 6, &[(0, 1, sym(4, 0)), (0, 2, img(0, 0))]), frame(2, 6, &[(0, 1, sym(4, 0))])] });
+    }
+    for f in 0..nf {
+        // blank runs in faces whose attributes show on a space must not be erased
+        for n in [4usize, 5, 8] {
+            res.push(Hist { h: 1, w: n, clear0: false, init: None, session: false, steps: vec![Step::Frame(vec![sym(0, f); n])] });
+            let mut a = vec![sym(1, f); 8];
+            a.extend(vec![sym(0, f); 8]);
+            let mut b = a.clone();
+            for c in 1..n.min(7) + 1 {
+                b[c] = sym(0, f);
+            }
+            res.push(Hist { h: 2, w: 8, clear0: true, init: None, session: false, steps: vec![Step::Frame(a), Step::Frame(b)] });
+        }
+        // an image in such a face
+        res.push(Hist { h: 3, w: 6, clear0: false, init: None, session: false, steps: vec![frame(3, 6, &[(0, 1, img(1, f)), (2, 0, gly(f))]), frame(3, 6, &[(0, 1, img(1, f)), (2, 2, gly(f)), (2, 0, sym(0, f))])] });
+    }
+    // the frame is drawn before clear() (frame-drop path), directly and through run_render
+    for session in [false, true] {
+        res.push(Hist { h: 1, w: 3, clear0: false, init: None, session, steps: vec![frame(1, 3, &[(0, 0, sym(3, 0))]), Step::ClearAfterDraw, frame(1, 3, &[(0, 1, sym(1, 1))])] });
+        res.push(Hist { h: 3, w: 6, clear0: false, init: None, session, steps: vec![frame(3, 6, &[(0, 0, img(1, 1)), (2, 5, sym(2, 0))]), Step::ClearAfterDraw, frame(3, 6, &[(1, 2, gly(2)), (0, 0, sym(4, 0))]), Step::Skip, frame(3, 6, &[(1, 2, gly(2))])] });
+    }
+    // resize in run_render: the old images must be erased and everything repainted
+    res.push(Hist { h: 3, w: 6, clear0: false, init: None, session: true, steps: vec![frame(3, 6, &[(0, 0, img(1, 1)), (2, 5, sym(2, 0))]), Step::Recreate, frame(3, 6, &[(2, 0, sym(1, 0))]), Step::Recreate, Step::Skip, frame(3, 6, &[])] });
+    res.push(Hist { h: 1, w: 3, clear0: false, init: None, session: true, steps: vec![frame(1, 3, &[(0, 0, sym(3, 0))]), Step::Recreate, frame(1, 3, &[])] });
+    res.push(Hist { h: 2, w: 4, clear0: false, init: None, session: true, steps: vec![frame(2, 4, &[(0, 0, gly(1))]), Step::Recreate, Step::ClearAfterDraw, frame(2, 4, &[(1, 1, gly(1))])] });
+    // wide characters hidden under an image: wholly inside, and cut by its right edge
+    res.push(Hist { h: 3, w: 6, clear0: false, init: None, session: false, steps: vec![frame(3, 6, &[(0, 1, img(1, 1)), (1, 2, sym(4, 0))]), frame(3, 6, &[(0, 1, img(1, 1)), (1, 1, sym(5, 2)), (1, 4, sym(1, 0))]), frame(3, 6, &[(1, 2, sym(4, 0))])] });
+    res.push(Hist { h: 3, w: 6, clear0: false, init: None, session: false, steps: vec![frame(3, 6, &[(0, 1, img(1, 1)), (1, 3, sym(4, 0)), (1, 4, sym(1, 0))]), frame(3, 6, &[(0, 1, img(1, 1)), (1, 3, sym(4, 0)), (1, 4, sym(2, 0))])] });
+    // empty terminals
+    for (h, w) in [(0usize, 0usize), (0, 3), (2, 0)] {
+        res.push(Hist { h, w, clear0: true, init: None, session: false, steps: vec![Step::Frame(vec![]), Step::Clear, Step::Frame(vec![]), Step::Recreate, Step::Frame(vec![])] });
     }
     // a terminal that shows something else when the renderer is created with clear = true
     let g: Vec<u8> = vec![sym(4, 1), 0, sym(3, 2), sym(5, 0), 0, sym(1, 1)];
-    res.push(Hist { h: 2, w: 3, clear0: true, init: Some(g.clone()), steps: vec![blank(2, 3)] });
-    res.push(Hist { h: 2, w: 3, clear0: true, init: Some(g), steps: vec![frame(2, 3, &[(0, 1, sym(4, 0)), (1, 0, sym(2, 2))])] });
+    res.push(Hist { h: 2, w: 3, clear0: true, init: Some(g.clone()), session: false, steps: vec![blank(2, 3)] });
+    res.push(Hist { h: 2, w: 3, clear0: true, init: Some(g), session: false, steps: vec![frame(2, 3, &[(0, 1, sym(4, 0)), (1, 0, sym(2, 2))])] });
     res
 }
 
@@ -959,13 +1351,32 @@ fn corner_cases(world: &World) -> Vec<Hist> {
 struct Ctx<'a> {
     world: &'a World,
     out: Out,
-    n_wp: u64,
+    n_clean: u64,
     n_ill: u64,
-    n_wp_fail: u64,
-    n_ill_fail: u64,
+    n_clean_fail: u64,
+    n_ill_fail: BTreeMap<&'static str, u64>,
+    n_in_domain: u64,
     n_oracle_lines: u64,
     oracle_budget: u64,
     n_panics: u64,
+    n_sessions: u64,
+    /// failures outside the known finding are reported first (the evidence keeps the first 50 only)
+    unlisted: Vec<(Hist, Verdict)>,
+    listed: Vec<(Hist, Verdict)>,
+}
+
+const WHAT_PLAIN: &str = "C01: after a rendered frame the terminal does not show the drawn surface";
+const WHAT_PANIC: &str = "C01: renderer panicked";
+
+fn what_of(v: &Verdict) -> String {
+    if v.panicked {
+        WHAT_PANIC.to_string()
+    } else {
+        match v.class {
+            None => WHAT_PLAIN.to_string(),
+            Some(c) => format!("C01-img/{c}: ill-placed image"),
+        }
+    }
 }
 
 impl Ctx<'_> {
@@ -975,28 +1386,37 @@ impl Ctx<'_> {
         if v.panicked {
             self.n_panics += 1;
         }
+        if hist.session {
+            self.n_sessions += 1;
+        }
         let req = hist_request(world, hist);
         let frames = hist.steps.iter().filter(|s| matches!(s, Step::Frame(_))).count();
         let nontrivial = hist.steps.iter().any(|s| matches!(s, Step::Frame(f) if f.iter().any(|&x| x != 0)));
-        self.out.case(&req, nontrivial);
+        self.out.case(&format!("{req} {}", hist.session), nontrivial);
         self.out.hist(&format!("class:{label}"));
-        self.out.hist(&format!("steps:{}", hist.steps.len()));
-        self.out.hist(&format!("cells:{}", match hist.h * hist.w { 0..=4 => "1-4", 5..=12 => "5-12", 13..=24 => "13-24", _ => "25-40" }));
-        self.out.hist(if v.well_placed { "well-placed" } else { "ill-placed" });
+        self.out.hist(if hist.session { "driver:run_render" } else { "driver:direct" });
+        self.out.hist(&format!("steps:{}", hist.steps.len().min(9)));
+        self.out.hist(&format!("cells:{}", match hist.h * hist.w { 0 => "0", 1..=4 => "1-4", 5..=12 => "5-12", 13..=24 => "13-24", 25..=40 => "25-40", _ => "41-240" }));
+        let any_ill = hist.steps.iter().any(|s| matches!(s, Step::Frame(f) if frame_class(world, hist.h, hist.w, f).is_some()));
+        self.out.hist(if any_ill { "ill-placed" } else { "well-placed" });
+        if v.all_in_domain {
+            self.n_in_domain += 1;
+        }
         for s in &hist.steps {
             self.out.hist(match s {
                 Step::Frame(_) => "step:frame",
                 Step::Skip => "step:skip",
                 Step::Clear => "step:clear",
+                Step::ClearAfterDraw => "step:clear-after-draw",
                 Step::Recreate => "step:recreate",
             });
         }
-        if v.well_placed { self.n_wp += 1 } else { self.n_ill += 1 }
-        if !v.panicked {
+        if any_ill { self.n_ill += 1 } else { self.n_clean += 1 }
+        if !v.panicked && v.cmds.len() == hist.steps.len() {
             let answer: Vec<String> = v.cmds.iter().map(|c| show_cmds(c)).collect();
             self.out.corr(&req, &answer.join("|"));
         }
-        if self.out.evaluations % 40 == 1 {
+        if self.out.evaluations % 40 == 1 && hist.h * hist.w > 0 && hist.h * hist.w <= 40 {
             // the harness' domain predicate against the Lean one
             for s in &hist.steps {
                 if let Step::Frame(f) = s {
@@ -1009,35 +1429,56 @@ impl Ctx<'_> {
         }
         match v.fail_step {
             None => {
-                if v.well_placed && frames > 0 && self.n_oracle_lines < self.oracle_budget {
+                // second opinion of the Lean reference terminal and specification
+                if !any_ill && frames > 0 && self.n_oracle_lines < self.oracle_budget {
                     self.n_oracle_lines += 1;
                     self.out.oracle(&exec_request(world, hist, &v.cmds), "ok");
                 }
             }
             Some(_) => {
-                if v.well_placed { self.n_wp_fail += 1 } else { self.n_ill_fail += 1 }
-                if self.out.failure_count < 12 {
-                    let small = shrink(world, hist, v.well_placed);
-                    let sv = judge(world, &small);
-                    let what = if sv.panicked {
-                        if sv.well_placed { "C01: renderer panicked" } else { "C01-img: ill-placed image (renderer panicked)" }
-                    } else if sv.well_placed {
-                        "C01: after a rendered frame the terminal does not show the drawn surface"
-                    } else {
-                        "C01-img: ill-placed image"
-                    };
-                    let mut input = hist_json(world, &small, sv.well_placed);
-                    input["failing_step"] = json!(sv.fail_step);
-                    input["commands"] = json!(sv.cmds.iter().map(|c| show_cmds(c)).collect::<Vec<_>>());
-                    self.out.fail(what, input, json!(sv.expected), json!(sv.got));
+                if v.class.is_none() || v.panicked {
+                    self.n_clean_fail += 1;
+                    if self.unlisted.len() < 40 {
+                        self.unlisted.push((hist.clone(), v));
+                    }
                 } else {
-                    let what = if v.well_placed { "C01: after a rendered frame the terminal does not show the drawn surface" } else { "C01-img: ill-placed image" };
-                    self.out.fail(what, hist_json(world, hist, v.well_placed), json!(v.expected), json!(v.got));
+                    *self.n_ill_fail.entry(v.class.unwrap()).or_insert(0) += 1;
+                    if self.listed.len() < 12 {
+                        self.listed.push((hist.clone(), v));
+                    }
                 }
+                return;
             }
         }
         if self.out.evaluations % 997 == 3 {
-            self.out.sample(json!({"request": req.chars().take(600).collect::<String>(), "well_placed": v.well_placed}));
+            self.out.sample(json!({"request": req.chars().take(600).collect::<String>(), "session": hist.session}));
+        }
+    }
+
+    fn report_failures(&mut self) {
+        let world = self.world;
+        let unlisted = std::mem::take(&mut self.unlisted);
+        let listed = std::mem::take(&mut self.listed);
+        for (k, (hist, v)) in unlisted.iter().chain(listed.iter()).enumerate() {
+            let shrink_it = k < 8 || (k >= unlisted.len() && k < unlisted.len() + 4);
+            if shrink_it {
+                let small = shrink(world, hist, v.class, v.panicked);
+                let sv = judge(world, &small);
+                let mut input = hist_json(world, &small, if sv.panicked { None } else { sv.class });
+                input["failing_step"] = json!(sv.fail_step);
+                input["commands"] = json!(sv.cmds.iter().map(|c| show_cmds(c)).collect::<Vec<_>>());
+                self.out.fail(&what_of(&sv), input, json!(sv.expected), json!(sv.got));
+            } else {
+                self.out.fail(&what_of(v), hist_json(world, hist, if v.panicked { None } else { v.class }), json!(v.expected), json!(v.got));
+            }
+        }
+        // the failures that are only counted
+        let total_listed: u64 = self.n_ill_fail.values().sum();
+        for _ in (unlisted.len() as u64)..self.n_clean_fail {
+            self.out.failure_count += 1;
+        }
+        for _ in (listed.len() as u64)..total_listed {
+            self.out.failure_count += 1;
         }
     }
 }
@@ -1050,19 +1491,24 @@ fn main() {
     let mut ctx = Ctx {
         world: &world,
         out,
-        n_wp: 0,
+        n_clean: 0,
         n_ill: 0,
-        n_wp_fail: 0,
-        n_ill_fail: 0,
+        n_clean_fail: 0,
+        n_ill_fail: BTreeMap::new(),
+        n_in_domain: 0,
         n_oracle_lines: 0,
         oracle_budget: if cfg.thorough { 30_000 } else { u64::MAX },
         n_panics: 0,
+        n_sessions: 0,
+        unlisted: Vec::new(),
+        listed: Vec::new(),
     };
-    let rule = "one case = one history (terminal 1..5 x 1..8, 1..8 steps of frame / skipped frame / clear / clear+new(clear=true), cells from {space, 3 narrow, 2 wide, 2 images of 1x2 and 2x3 cells, 1 glyph} x 3 faces incl. bg=#010203, optional foreign initial screen content); non-trivial = some frame draws a non-default cell; distinct by request line";
+    let rule = "one case = one history (terminal 1..5 x 1..8, thorough also 0..12 x 0..20; 1..8 steps of frame / skipped frame / clear / clear after the frame was drawn / clear+new(clear=true); a quarter of them driven through Terminal::run_render with Resize events and frame drops; cells from {space, 3 narrow, 2 wide, 2 images of 1x2 and 2x3 cells, 1 glyph} x 5 faces incl. bg=#010203, underline and reverse; optional foreign initial screen content); non-trivial = some frame draws a non-default cell; distinct by request line and driver";
     if let Some(rep) = &cfg.replay {
         if let Some(h) = parse_hist(&world, &rep["failure"]["input"]) {
             ctx.one(&h, "replay");
         }
+        ctx.report_failures();
         ctx.out.finish(rule);
         return;
     }
@@ -1072,7 +1518,7 @@ fn main() {
     let mut rng = Rng::new(cfg.seed);
     let n = if cfg.thorough { 200_000 } else { 4_000 };
     for _ in 0..n {
-        let (h, class) = random_hist(&world, &mut rng);
+        let (h, class) = random_hist(&world, &mut rng, cfg.thorough);
         let label = match class {
             Class::Narrow => "narrow",
             Class::Wide => "wide",
@@ -1083,9 +1529,11 @@ fn main() {
         };
         ctx.one(&h, label);
     }
+    ctx.report_failures();
     let stats = json!({
-        "well_placed_histories": ctx.n_wp, "well_placed_failing": ctx.n_wp_fail,
-        "ill_placed_histories": ctx.n_ill, "ill_placed_failing": ctx.n_ill_fail,
+        "clean_histories": ctx.n_clean, "clean_failing": ctx.n_clean_fail,
+        "ill_placed_histories": ctx.n_ill, "ill_placed_failing_by_class": ctx.n_ill_fail,
+        "histories_in_lean_domain": ctx.n_in_domain, "run_render_sessions": ctx.n_sessions,
         "lean_exec_oracle_lines": ctx.n_oracle_lines, "renderer_panics": ctx.n_panics,
     });
     ctx.out.extra("c01", stats);
